@@ -1,5 +1,5 @@
 """C19 — a blacklisted address never receives content (structural clauses)."""
-from .. import core, tables
+from .. import core, tables, panics
 from ..core import describe_r as describe, desc_contains, switch_info
 from .c01 import some_edge_of
 
@@ -315,7 +315,7 @@ def block_mode(chk, prog_by_cfg):
               "mode": fidx(prog, "humphrey_server::config::config::BlacklistConfig", "mode")}
         falses = [i for i, blk in enumerate(b.blocks) for s in blk["stmts"] if "pl" in s and s["pl"]["l"] == 0 and s["rv"]["k"] == "use" and s["rv"]["o"].get("v") is False]
         trues = [i for i, blk in enumerate(b.blocks) for s in blk["stmts"] if "pl" in s and s["pl"]["l"] == 0 and s["rv"]["k"] == "use" and s["rv"]["o"].get("v") is True]
-        chk.floor("verify_connection deny sites", len(falses), 1)
+        chk.floor("verify_connection result sites", len(falses) + len(b.defs().get(0, [])), 1)
         found = False
         for fb in falses:
             gs = core.guards_dominating(prog, b, fb)
@@ -336,6 +336,25 @@ def block_mode(chk, prog_by_cfg):
             if mode_ok and listed:
                 found = True
                 chk.ob("R3.block_mode", fn, "the address tested is the socket peer address", peer, "block mode tests something other than stream.peer_addr().ip()", where=b.where(fb))
+        # `!refused` form: the result is the negation of a boolean that is exactly (mode == Block && list.contains(peer))
+        for d_ in b.defs().get(0, []):
+            if d_[2] == "assign" and d_[3]["rv"]["k"] == "un" and d_[3]["rv"]["op"] == "Not" and core.op_local(d_[3]["rv"]["o"]) is not None:
+                xl, _neg = core._flag_root(b, core.op_local(d_[3]["rv"]["o"]))
+                facts_ = panics._short_circuit(prog, b, xl, 0)
+                m_ok = l_ok = p_ok = False
+                for dd, truth in facts_:
+                    if not truth or not isinstance(dd, tuple):
+                        continue
+                    if desc_contains(dd, lambda y: y[0] == "call" and y[1].endswith("PartialEq>::eq") and any(core.is_variant(z, "BlacklistMode", "Block") for z in y[2])):
+                        m_ok = True
+                    for c in core.desc_calls(dd):
+                        if c[1].endswith("::contains") and len(c[2]) > 1 and desc_contains(c[2][0], lambda y: y[0] == "field" and y[2] == ix["list"]):
+                            l_ok = True
+                            p_ok = desc_contains(c[2][1], lambda y: y[0] == "call" and y[1].endswith("TcpStream::peer_addr")) and \
+                                desc_contains(c[2][1], lambda y: y[0] == "call" and y[1].endswith("SocketAddr::ip"))
+                if m_ok and l_ok:
+                    found = True
+                    chk.ob("R3.block_mode", fn, "the address tested is the socket peer address", p_ok, "block mode tests something other than stream.peer_addr().ip()", where=b.where(d_[0]))
         chk.ob("R3.block_mode", fn, "returns false when mode == Block and the peer is listed", found,
                "no `false` result is dominated by (mode == Block) && list.contains(peer)")
         for tb in trues:
